@@ -112,7 +112,9 @@ Definition destroy (k : cfg) (s : nat) (p : pool) : pool :=
   let p3 := req_dec k p2 in
   if closed p3 c then p3 else p3 <| idle := idle p3 ++ [c] |>.
 
-(* OnResetStream then DestroyStream (BaseStream.ResetStream; no-op unless the stream is still alive) *)
+(* BaseStream.ResetStream: OnResetStream(r) then DestroyStream; no-op unless the stream is still alive.
+   The first reset reason is recorded after the destroy effects - inside this atomic step the order of the
+   two record updates is not observable. *)
 Definition reset_marks (k : cfg) (r : reason) : bool :=
   is_local r || match k_kind k with Http1 => sw_http_reset_any (k_sw k) | PingPong => sw_pp_reset_any (k_sw k) end.
 
@@ -124,19 +126,24 @@ Definition note_reset (p : pool) (s : nat) (r : reason) : pool :=
 Definition reset_stream (k : cfg) (s : nat) (r : reason) (p : pool) : pool :=
   if live p s then
     let c := scli p s in
-    let p1 := note_reset p s r in
-    let p2 := if reset_marks k r && negb (closed p1 c) then set_cconn p1 c else p1 in
-    destroy k s p2
+    let p1 := if reset_marks k r && negb (closed p c) then set_cconn p c else p in
+    note_reset (destroy k s p1) s r
   else p.
+
+(* api.ConnectionEvent kinds with IsClose() = true *)
+Inductive close_ev := EvRemote | EvLocal | EvReadErr | EvWriteErr | EvWriteTimeout.
+(* outcome of the dial of a new connection: connected / api.ConnectFailed / api.ConnectTimeout *)
+Inductive dial := DialOk | DialRefused | DialTimeout.
+Definition dial_ok (d : dial) : bool := match d with DialOk => true | _ => false end.
 
 (* operations *)
 Inductive op :=
-| NewStream (connect_ok : bool) (send : bool)   (* pool.NewStream; connect_ok: would a dial succeed; send: the request is written at once *)
+| NewStream (d : dial) (send : bool)            (* pool.NewStream; d: what a dial would do; send: the request is written at once *)
 | Send (s : nat)                                (* the lessee writes the request of stream s (AppendHeaders endStream) *)
 | Response (s : nat) (conn_close : bool)        (* upstream answers stream s; conn_close: HTTP "Connection: close" *)
 | LocalReset (s : nat)                          (* lessee resets s: timeout, downstream abort *)
 | RemoteReset (s : nat)                         (* StreamRemoteReset on s (http: malformed response) *)
-| ConnClose (c : nat) (remote : bool)           (* the connection of client c is closed by the upstream / by mosn *)
+| ConnClose (c : nat) (ev : close_ev)           (* the connection of client c closes, reported with close event ev *)
 | GoAway (c : nat)                              (* xprotocol go-away frame arrives on c *)
 | Shutdown                                      (* pool.Shutdown() *)
 | ExtReq (inc : bool).                          (* another holder of the cluster's Requests resource *)
@@ -179,20 +186,33 @@ Definition new_stream (k : cfg) (ok send : bool) (p : pool) : pool * res :=
     | (p1, None, r) => (p1, r)
     end.
 
-Definition resets_on_close (k : cfg) (p : pool) (c : nat) (s : nat) : bool :=
-  live p s && Nat.eqb (scli p s) c && match k_kind k with Http1 => sent p s | PingPong => true end.
+(* the live stream of client c (the latest one: http clientStreamConnection.stream is a single pointer that
+   NewStream overwrites; the xprotocol client stream table of a ping-pong connection holds the live streams -
+   under the exclusive-lease invariant, which is proved, there is at most one) *)
+Fixpoint find_live (p : pool) (c : nat) (n : nat) : option nat :=
+  match n with
+  | O => None
+  | S m => if live p m && Nat.eqb (scli p m) c then Some m else find_live p c m
+  end.
 
-Definition close_reason (k : cfg) (remote : bool) : reason :=
+(* CheckReasonError: http distinguishes RemoteClose (UpstreamReset) from the other close events *)
+Definition close_reason (k : cfg) (ev : close_ev) : reason :=
   match k_kind k with
-  | Http1 => if remote then RsUpstream else RsTerm
+  | Http1 => match ev with EvRemote => RsUpstream | _ => RsTerm end
   | PingPong => RsFailed   (* stream.client is created after Connect(): ConnectedFlag is never set *)
   end.
 
-Definition conn_close (k : cfg) (c : nat) (remote : bool) (p : pool) : pool :=
+(* connection close with ANY close event kind (both pools test event.IsClose()): the pool's listener runs
+   (close_client), the stream layer resets the stream in flight
+   (http: only if the request was written - the response reader resets it; an unsent stream stays with its lessee) *)
+Definition conn_close (k : cfg) (c : nat) (ev : close_ev) (p : pool) : pool :=
   if Nat.ltb c (nclients p) && negb (closed p c) then
     let p1 := close_client k c p in
-    fold_left (fun q s => if resets_on_close k q c s then reset_stream k s (close_reason k remote) q else q)
-              (seq 0 (nstreams p)) p1
+    match find_live p c (nstreams p) with
+    | Some s => if match k_kind k with Http1 => sent p s | PingPong => true end
+                then reset_stream k s (close_reason k ev) p1 else p1
+    | None => p1
+    end
   else p.
 
 Definition deliver (p : pool) (s : nat) : pool :=
@@ -205,22 +225,23 @@ Definition set_sent (p : pool) (s : nat) : pool :=
 
 Definition step (k : cfg) (p : pool) (o : op) : pool * res :=
   match o with
-  | NewStream ok send => new_stream k ok send p
+  | NewStream d send => new_stream k (dial_ok d) send p
   | Send s =>
     if Nat.ltb s (nstreams p) && live p s && negb (sent p s) then
-      (if closed p (scli p s) then reset_stream k s RsFailed (set_sent p s) else set_sent p s, RN)
+      (* a write on a closed connection fails: the stream resets itself with StreamConnectionFailed *)
+      (if closed p (scli p s) then reset_stream k s RsFailed p else set_sent p s, RN)
     else (p, RN)
   | Response s cc =>
     if Nat.ltb s (nstreams p) && live p s && sent p s then
       let c := scli p s in
       let p1 := match k_kind k with Http1 => if cc then set_cconn p c else p | PingPong => p end in
-      (destroy k s (deliver p1 s), RN)
+      (deliver (destroy k s p1) s, RN)   (* client.go wrapper: DestroyStream first, then OnReceive *)
     else (p, RN)
   | LocalReset s => if Nat.ltb s (nstreams p) then (reset_stream k s RsLocal p, RN) else (p, RN)
   | RemoteReset s =>
     if Nat.ltb s (nstreams p) && match k_kind k with Http1 => sent p s | PingPong => true end
     then (reset_stream k s RsRemote p, RN) else (p, RN)
-  | ConnClose c remote => (conn_close k c remote p, RN)
+  | ConnClose c ev => (conn_close k c ev p, RN)
   | GoAway c =>
     match k_kind k with
     | PingPong => if Nat.ltb c (nclients p) then (set_cconn p c, RN) else (p, RN)
